@@ -682,7 +682,8 @@ where
         seq.next_element_seed(DeserializeEntities {
             count: self.entity_count,
             out: self.entities,
-        })?;
+        })?
+        .ok_or_else(|| de::Error::invalid_length(0, &self))?;
         self.ctx
             .deserialize_components(self.entity_count, seq, self.out)
     }
